@@ -15,10 +15,16 @@ PID = "C09"
 def run(tier, v):
     wd = os.path.join(vlib.OUT, PID)
     thorough = tier == "thorough"
+    # thorough: 3 nodes x 1 silence (MaxTime 4) and 2 nodes x 2 silences (MaxTime 3, one message in flight); measured 1.6 M and
+    # 1.2 M distinct states (2 nodes x 2 silences x MaxTime 4 exceeds 46 M states and does not finish within the budget)
     mc = vlib.tlc(PID, "mc", "MC_SilCluster", "MC_SilCluster_thorough.cfg" if thorough else "MC_SilCluster.cfg",
                   timeout=2400 if thorough else 400, workers=8)
     vlib.tlc_must_pass(mc, "MC_SilCluster")
     log("  MC_SilCluster: %d generated, %d distinct, depth %d, %.1fs" % (mc.generated, mc.distinct, mc.depth, mc.wall))
+    if thorough:
+        mc2 = vlib.tlc(PID, "mc2", "MC_SilCluster", "MC_SilCluster_thorough2.cfg", timeout=2400, workers=8)
+        vlib.tlc_must_pass(mc2, "MC_SilCluster_thorough2")
+        log("  MC_SilCluster (2 silences): %d generated, %d distinct, depth %d, %.1fs" % (mc2.generated, mc2.distinct, mc2.depth, mc2.wall))
     # the strict invariants (no F7 excuse) are expected to fail while F7 is open
     strict = vlib.tlc(PID, "mc_strict", "MC_SilCluster", "MC_SilCluster_strict.cfg", timeout=400, workers=8)
     f7_in_model = strict.violated in ("NoStaleStrict", "ConvergedStrict")
